@@ -471,6 +471,7 @@ def _run(ix, R):
         if rel.startswith(CH):
             fns.extend(fn for fn in ix.functions_in(rel) if fn.name in ('initialize_profile', 'initialize_chemistry', 'fill_atmosphere', 'compute_mu_profile', 'determine_active_inactive'))
     api_obligations(ix, R, '6.api', fns, 'profile construction')
+    tokens_obligation(ix, R)
     # ---- 7. weight
     site = UU + '::calculate_weight'
     with R.guard('7.weight', 'ALG', site, 'weight'):
@@ -488,6 +489,78 @@ def _run(ix, R):
         ok = ok and len(init) == 1 and init[0][1].const() == 0
         R.check('7.weight', 'ALG', site, 'molecular weight = sum over elements of mass[element] * count',
                 ok, key=fmt(fl, au.value), detail='adds %s' % fmt(fl, au.value), loc=f.loc(au.node))
+
+
+def tokens_obligation(ix, R):
+    """7.tokens: the formula tokenizer splits a formula into element symbols, WHOLE numbers and single other
+    characters.  The regular expression is parsed (re._parser, nothing is matched or run): its alternatives must be an
+    upper-case letter with an optional lower-case one, a run of one or more digits with no upper limit, and any single
+    character, in that order - a count such as the 10 of C10H8 has to arrive as one token, because
+    split_molecule_elements reads exactly one token after an element as its count."""
+    import re._parser as rp
+    import re._constants as rc
+    site = UU + '::tokenize_molecule'
+    with R.guard('7.tokens', 'TAB', site, 'formula tokens'):
+        f = ix.func(site)
+        pat = None
+        cands = []
+        for n in ast.walk(f.node):
+            if isinstance(n, ast.Call) and isinstance(n.func, ast.Attribute) and n.func.attr in ('findall', 'finditer'):
+                if n.args and isinstance(n.args[0], ast.Constant) and isinstance(n.args[0].value, str) and \
+                        unparse(n.func.value) == 're':
+                    cands.append(n.args[0].value)
+                elif isinstance(n.func.value, ast.Name):
+                    # a pattern compiled at module level
+                    for st in f.module.tree.body:
+                        if isinstance(st, ast.Assign) and len(st.targets) == 1 and isinstance(st.targets[0], ast.Name) and \
+                                st.targets[0].id == n.func.value.id and isinstance(st.value, ast.Call) and \
+                                unparse(st.value.func) in ('re.compile', 'compile') and st.value.args and \
+                                isinstance(st.value.args[0], ast.Constant):
+                            cands.append(st.value.args[0].value)
+        pat = one(cands, 'regular expression of the tokenizer')
+        tree = rp.parse(pat)
+        why = []
+        alts = None
+        if len(tree) == 1 and tree[0][0] == rc.BRANCH:
+            alts = tree[0][1][1]
+        if alts is None or len(alts) != 3:
+            why.append('pattern %r does not have the three alternatives element | number | other' % pat)
+        else:
+            def is_digits(item):
+                op, av = item
+                if op == rc.IN:
+                    return av == [(rc.CATEGORY, rc.CATEGORY_DIGIT)] or av == [(rc.RANGE, (48, 57))]
+                return False
+            num = list(alts[1])
+            okn = len(num) == 1 and num[0][0] in (rc.MAX_REPEAT, rc.MIN_REPEAT) and num[0][1][0] == 1 and \
+                num[0][1][1] == rc.MAXREPEAT and len(num[0][1][2]) == 1 and is_digits(num[0][1][2][0])
+            if not okn:
+                why.append('the number alternative of %r is not a run of one or more digits without an upper limit '
+                           '(a count of ten or more would be split into several tokens)' % pat)
+            el = list(alts[0])
+            oke = len(el) == 2 and el[0] == (rc.IN, [(rc.RANGE, (65, 90))]) and el[1][0] == rc.MAX_REPEAT and \
+                el[1][1][0] == 0 and el[1][1][1] == 1 and list(el[1][1][2]) == [(rc.IN, [(rc.RANGE, (97, 122))])]
+            if not oke:
+                why.append('the element alternative of %r is not [A-Z][a-z]?' % pat)
+            if list(alts[2]) != [(rc.ANY, None)]:
+                why.append('the last alternative of %r is not a single arbitrary character' % pat)
+        R.check('7.tokens', 'TAB', site,
+                'formula tokens: element symbol [A-Z][a-z]? | whole number (one or more digits) | any other single character',
+                not why, key='; '.join(why), detail='; '.join(why), loc=f.loc())
+    site = UU + '::split_molecule_elements'
+    with R.guard('7.count', 'ALG', site, 'element count'):
+        f = ix.func(site)
+        from sa.helpers import need
+        need(R, '7.count', 'ALG', site, 'the count of an element (or bracket group) is the single token that follows it, else 1', f,
+             ['''
+try:
+    V_peek = int(V_tokens[V_i + 1])
+    V_i += 1
+except IndexError:
+    V_peek = 1
+except ValueError:
+    V_peek = 1
+''', 'V_elems[V_tok] += V_peek'], under='*')
 
 
 def _getter(ix, R, site, attr):
